@@ -94,3 +94,14 @@ Proof.
   intros Hb. unfold file_read. destruct (state_file f) as [|c b] eqn:Hs; [left; by eexists|].
   by apply decode_safe.
 Qed.
+
+(** The file identifies the lock table: two well-formed maps with the same encoding are the
+    same map (corollary of [roundtrip]; no two different tables share a file image). *)
+Lemma encode_determines_map (es1 es2 : entries) :
+  wf es1 -> wf es2 -> encode es1 = encode es2 -> to_map es1 = to_map es2.
+Proof.
+  intros H1 H2 He.
+  pose proof (roundtrip es1 es1 H1 (reflexivity _)) as R1.
+  pose proof (roundtrip es2 es2 H2 (reflexivity _)) as R2.
+  rewrite He in R1. rewrite R1 in R2. by injection R2.
+Qed.
